@@ -97,6 +97,9 @@ class Markers:
     def __init__(self, prefix=""):
         self.n = 0
         self.prefix = prefix      # one letter per file when several files are bundled
+        # removable statements / commented compound targets only in single-file programs (a `type` statement of a
+        # bundled module is hoisted to the top of the bundle, which is not what the bundling oracle measures)
+        self.extras = prefix == ""
 
     def __call__(self, kind):
         self.n += 1
@@ -142,6 +145,173 @@ HAND_SOURCES = [
 ]
 
 
+# ---- targeted templates (coordinator's gaps 1 and 2)
+
+COMPOUND_TARGETS = ["stats.totals.label", "a.b.c", "f().x", "(t).k", "t[g()]", "a[M0].x", "f(M0).y.z", "(f()).a.b", "a:m().x",
+                    "a -- p\n.b -- q\n.c", "a.b", "x", "t[1][2]", "(a or b).c.d", "a -- p\n[k] -- q\n.c"]
+AFTER_TARGET = [" -- c\n", " -- c\n\n\n", " -- c\n  ", " --[[ c ]] ", " --[[ c\n]] ", "\n", " -- c\n -- d\n"]
+COMPOUND_OPS = ["+=", "-=", "*=", "/=", "//=", "%=", "^=", "..="]
+
+
+def compound_sources(rng, n):
+    """programs of compound assignments whose target is followed by a comment and a line break before the operator"""
+    out = []
+    for i in range(n):
+        m = [0]
+
+        def mk():
+            m[0] += 1
+            return "M%d" % m[0]
+        lines = ["print(%s)" % mk()]
+        for k in range(rng.randrange(1, 4)):
+            t = COMPOUND_TARGETS[(i + k) % len(COMPOUND_TARGETS)] if k == 0 else rng.choice(COMPOUND_TARGETS)
+            t = t.replace("M0", mk())
+            after = AFTER_TARGET[(i + k) % len(AFTER_TARGET)] if k == 0 else rng.choice(AFTER_TARGET)
+            value = rng.choice(["%s", "'%s'", "%s(\n %s)", "%s ..\n %s"])
+            value = value % tuple(mk() for _ in range(value.count("%s")))
+            sep = ";" if t.startswith("(") else ""
+            lines.append(sep + t + after + rng.choice(COMPOUND_OPS) + " " + value)
+            lines.append(rng.choice(["", "-- between", "%s()" % mk(), ""]))
+        lines.append("%s(%s,\n  %s)" % (mk(), mk(), mk()))
+        out.append("\n".join(lines) + "\n")
+    return out
+
+
+REMOVABLE = [
+    ("remove_unused_variable", "local unused = 1"),
+    ("remove_unused_variable", "local unused = {%INSIDE%}"),
+    ("remove_unused_variable", "local function unusedf()%INSIDE%end"),
+    ("remove_empty_do", "do%INSIDE%end"),
+    ("remove_types", "type Unused = number"),
+    ("remove_types", "type Unused = {%INSIDE% x: number }"),
+    ("remove_unused_if_branch", "if false then%INSIDE% f()\nend"),
+    ("remove_unused_while", "while false do%INSIDE% f()\nend"),
+]
+GAPS_BEFORE = ["-- a\n\n\n-- b\n", "-- a\n\n-- b\n\n\n\n-- c\n", "--[[ a ]]\n\n\n--[[ b ]]\n", "-- a\n-- b\n\n\n", "",
+               "--[[ a ]] --[[ a2 ]]\n\n\n\n-- b\n"]
+GAPS_AFTER = ["\n", " -- d\n", " -- d\n\n\n-- e\n", "\n\n\n-- e\n\n", " --[[ d ]]\n\n-- e\n-- f\n"]
+GAPS_INSIDE = [" ", " -- i\n\n\n -- j\n", "\n\n -- i\n", " --[[ i ]]\n\n\n"]
+# the recorded defect: a comment that spans lines followed by another comment (see known_findings.txt)
+GAPS_BEFORE_KNOWN = ["--[[ b\nb2\nb3\n]]\n-- c\n", "-- a\n\n--[[ b\n]]\n\n-- c\n"]
+
+
+def removal_sources(rng, n, known=False):
+    """[(rule, source)]: a statement that `rule` removes, comments several lines apart before / after / inside it,
+    markers before and after"""
+    out = []
+    for i in range(n):
+        rule, stmt = REMOVABLE[i % len(REMOVABLE)]
+        before = rng.choice(GAPS_BEFORE_KNOWN) if known else GAPS_BEFORE[(i // len(REMOVABLE) + i) % len(GAPS_BEFORE)]
+        after = GAPS_AFTER[i % len(GAPS_AFTER)] if rng.randrange(2) else rng.choice(GAPS_AFTER)
+        stmt = stmt.replace("%INSIDE%", rng.choice(GAPS_INSIDE))
+        head = rng.choice(["print(M1)\n", "print(M1)\n\n", "local k = M1\nprint(k,\n  M2)\n", ""])
+        tail = rng.choice(["print(M9)\nM10()\n", "M9(\n  M10)\n\nreturn M11\n", "print(M9)"])
+        body = before + stmt + after
+        if rng.randrange(4) == 0:
+            body = "do\n" + body + "M5()\nend\n"       # inside a nested block
+        elif rng.randrange(4) == 0:
+            body = body + "-- x\n\n\n-- y\n" + REMOVABLE[(i + 3) % 2][1].replace("unused", "unused2") + "\n"   # two in a row
+        out.append((rule, head + body + tail))
+    return out
+
+
+KEY_COMMENT_TRANSFER = "removed-statement-comment-transfer:multi-line-comment-then-comment"
+REMOVERS = {"remove_unused_variable", "remove_empty_do", "remove_types", "remove_unused_if_branch", "remove_unused_while",
+            "filter_after_early_return", "remove_assertions", "remove_debug_profiling", "remove_nil_declaration"}
+
+
+KEY_COMPOUND_KEY = "compound-assignment-index-key-hoisted:--_c<LF>t[g()]*=M2"
+COMPOUND_OP_TOKENS = {b"+=", b"-=", b"*=", b"/=", b"//=", b"%=", b"^=", b"..="}
+
+
+def compound_index_key_hoisted(src, spaces_removed):
+    """a compound assignment `prefix[key] op= value` whose key is not a literal (it is evaluated first, in front
+    of the prefix) and whose first token is preceded by a comment (or, when white space is kept, a blank line)"""
+    data = src.encode("utf-8")
+    try:
+        toks, comments = L.lex(data)
+    except L.LexError:
+        return False
+    closers = {b")": b"(", b"]": b"[", b"}": b"{"}
+
+    def opener(i):
+        depth = 0
+        want = closers[toks[i].text]
+        while i >= 0:
+            if toks[i].text in closers:
+                depth += 1
+            elif toks[i].text in closers.values():
+                depth -= 1
+                if depth == 0:
+                    return i if toks[i].text == want else None
+            i -= 1
+        return None
+
+    for j, t in enumerate(toks):
+        if t.text not in COMPOUND_OP_TOKENS or j == 0 or toks[j - 1].text != b"]":
+            continue
+        o = opener(j - 1)
+        if o is None:
+            continue
+        key = toks[o + 1:j - 1]
+        if len(key) == 1 and key[0].kind in ("number", "string") or (len(key) == 1 and key[0].text in (b"true", b"false")):
+            continue
+        # walk back over the prefix expression to the first token of the statement
+        i = o - 1
+        while i >= 0:
+            if toks[i].text in closers:
+                k = opener(i)
+                if k is None:
+                    break
+                i = k
+                if i > 0 and (toks[i - 1].kind == "name" or toks[i - 1].text in closers) and toks[i].text != b"{":
+                    i -= 1
+                    continue
+                break
+            if toks[i].kind == "name" and i > 0 and toks[i - 1].text in (b".", b":"):
+                i -= 2
+                continue
+            break
+        if i < 0:
+            i = 0
+        start = toks[i].start
+        before = toks[i - 1].end if i > 0 else 0
+        gap = data[before:start]
+        if any(before <= c.start < start for c in comments) or (not spaces_removed and gap.count(b"\n") >= 2):
+            return True
+    return False
+
+
+def transferred_comments_out_of_order(trace):
+    """signature of the recorded comment-transfer defect in the write requests: a token whose leading trivia
+    holds line breaks made by Block::remove_statement (owned white space of line feeds only) and whose
+    original trivia are no longer in source order"""
+    for e in trace:
+        if e["t"] != "tok":
+            continue
+        made = any((not is_comment) and p[0] == 2 and p[1] and set(bytes.fromhex(p[1])) == {0x0A} for is_comment, p in e["l"])
+        if not made:
+            continue
+        starts = [p[1] for _, p in e["l"] if p[0] == 0]
+        if any(a > b for a, b in zip(starts, starts[1:])):
+            return True
+    return False
+
+
+def multiline_comment_then_comment(src):
+    """a comment spanning several lines whose next lexical item is another comment"""
+    data = src.encode("utf-8")
+    try:
+        toks, comments = L.lex(data)
+    except L.LexError:
+        return False
+    items = sorted(list(toks) + [c for c in comments if c.kind == "comment"], key=lambda t: t.start)
+    for a, b in zip(items, items[1:]):
+        if a.kind == "comment" and b.kind == "comment" and b"\n" in a.text:
+            return True
+    return False
+
+
 WITNESS_JOBS = [
     ({"rules": ["remove_spaces", "remove_method_call"]}, "obj -- c\n:m(M1)\nM2()\n"),
     ({"rules": ["remove_empty_do"]}, "--[==[\n]==]do\nend--[=[\n]=] local x = M1\nM2()\n"),
@@ -149,6 +319,18 @@ WITNESS_JOBS = [
     ({"rules": ["remove_method_definition"]}, "function M1:name(a\n,b\n)\nend\nM2()\n"),
     ({"rules": ["remove_unused_if_branch"]}, "if a then\n f(1)\nelseif true then\n M1()\nelse\n M2()\nend\nM3()\n"),
     ({"rules": [{"rule": "append_text_comment", "text": "x", "location": "end"}]}, "local a = M1;\n"),
+    ({"rules": ["remove_unused_variable"]}, "--[[ b\nb2\nb3\n]]\n-- c\nlocal unused = 1\nprint(M9)\n"),
+    ({"rules": ["remove_spaces", "remove_compound_assignment"]}, "print(M1)\n-- c\nt[g()] *= M2\nM3()\n"),
+    # the regressions the coordinator seeded (must stay on their lines on the unchanged tree)
+    ({"rules": ["remove_compound_assignment"]}, "stats.totals.label -- c\n  ..= 'M3'\nprint(M4)\n"),
+    ({"rules": ["remove_spaces", "remove_compound_assignment"]}, "a.b.c -- c\n+= M3\nM4()\n"),
+    ({"rules": ["remove_compound_assignment"]}, "f().x -- c\n+= M1\nM2()\n"),
+    ({"rules": ["remove_compound_assignment"]}, ";(t).k -- c\n*= M1\nM2()\n"),
+    ({"rules": ["remove_compound_assignment"]}, "a -- c\n.b -- d\n.c += M1\nM2()\n"),
+    ({"rules": ["remove_unused_variable"]}, "-- a\n\n\n-- b\nlocal unused = 1\nprint(M9)\nM10()\n"),
+    ({"rules": ["remove_empty_do"]}, "-- a\n\n\n-- b\ndo end\nprint(M9)\n"),
+    ({"rules": ["remove_types"]}, "-- a\n\n\n-- b\ntype T = number\nprint(M9)\n"),
+    ({"rules": ["remove_unused_if_branch"]}, "print(M1)\n-- a\n\n\n-- b\nif false then\n f() -- c\n\nend -- d\n\n-- e\nprint(M9)\n"),
 ]
 
 
@@ -296,6 +478,22 @@ def run(ctx):
             jobs.append(("append-end", {"rules": [{"rule": "append_text_comment", "text": t, "location": "end"}]}, s, None))
     for c, s in WITNESS_JOBS:
         jobs.append(("witness", c, s, None))
+    rca = "remove_compound_assignment"
+    for si, s in enumerate(compound_sources(rng, 30 if quick else 150)):
+        pipelines = [[rca], ["remove_spaces", rca], ["remove_spaces", rca, rng.choice(LINE_NEUTRAL)],
+                     [rng.choice(LOWERING), rca], list(DEFAULT_RULES) + [rca]]
+        for pi, rules in enumerate(pipelines):
+            if quick and pi >= 2 and (si + pi) % 3:
+                continue
+            jobs.append(("targeted: compound assignment, commented target", {"rules": rules}, s, None))
+    removal = removal_sources(rng, 32 if quick else 160) + removal_sources(rng, 4 if quick else 16, known=True)
+    for si, (rule, s) in enumerate(removal):
+        defaults_keep_comments = [r for r in DEFAULT_RULES if r != "remove_comments"]
+        pipelines = [[rule], ["remove_spaces", rule], [rule, rng.choice(sorted(REMOVERS))], defaults_keep_comments + [rule]]
+        for pi, rules in enumerate(pipelines):
+            if quick and pi >= 2 and (si + pi) % 2:
+                continue
+            jobs.append(("targeted: removed statement, comments lines apart", {"rules": rules}, s, None))
     rows = [{"id": i, "config": json.dumps(j[1]), "src": j[2], "trace": True} for i, j in enumerate(jobs)]
     res = _run(rows, crate="dl-c04")
 
@@ -562,6 +760,15 @@ def classify_problem(c, s, out):
             return c18.KEY_DOTNUM
     if "remove_unused_if_branch" in names and has_constant_elseif(s):
         return KEY_ELSEIF_TRUE
+    removers = [i for i, n in enumerate(names) if n in REMOVERS]
+    if removers and not ("remove_comments" in names and names.index("remove_comments") < removers[0]):
+        if multiline_comment_then_comment(s):
+            return KEY_COMMENT_TRANSFER
+        rr = _run([{"id": 0, "config": json.dumps(c), "src": s, "trace": True}], crate="dl-c04")[0]
+        if rr["ok"] and transferred_comments_out_of_order(rr["trace"]):
+            return KEY_COMMENT_TRANSFER
+    if "remove_compound_assignment" in names and compound_index_key_hoisted(s, "remove_spaces" in names[:1]):
+        return KEY_COMPOUND_KEY
     culprit = culprit_rule(c, s)
     if culprit in KNOWN_CULPRITS:
         return "line-shift:" + culprit
